@@ -176,6 +176,7 @@ func runC11(c *Ctx) {
 	c11KeyIsUnsafe(c)
 	c11ExecKeys(c, safe, allowSuffixes)
 	c11KeyEnumerations(c, allowSuffixes)
+	c11SSHDestination(c)
 }
 
 // lastPartConst: cond compares the last dot-separated component of `key` with a constant.
@@ -892,6 +893,101 @@ func c11PatternsOf(p *Prog, re ssa.Value) []string {
 		} else if sc, ok := arg.(*ssa.Call); ok && CalleeName(&sc.Call) == "fmt.Sprintf" {
 			if s, ok := ConstString(sc.Call.Args[0]); ok {
 				out = append(out, s)
+			}
+		}
+	}
+	return out
+}
+
+// c11SSHDestination (R8): lfs.url may come from .lfsconfig, and for an ssh:// URL its user@host part becomes an
+// argument of the ssh command. It must never be read by ssh as an option (`-oProxyCommand=…` executes a program):
+// the destination is appended as it is only when the option-prefix test on the WHOLE user@host string is
+// negative; otherwise `--` goes in front of it (OpenSSH) or the dashes are stripped (plink/tortoise). A test on a
+// part of the string (the host behind the last '@') lets a user-info starting with '-' through.
+func c11SSHDestination(c *Ctx) {
+	p := c.P
+	fn := p.Fn("ssh", "GetExeAndArgs")
+	if fn == nil {
+		c.Missing("R8", "ssh.GetExeAndArgs", "not found")
+		return
+	}
+	isDest := func(v ssa.Value) bool {
+		_, f, _, ok := FieldOf(v)
+		return ok && f == "UserAndHost"
+	}
+	pass := PassEdges(fn, func(cond ssa.Value) (bool, bool) {
+		cc, ok := cond.(*ssa.Call)
+		if !ok || CalleeName(&cc.Call) != "(*regexp.Regexp).MatchString" {
+			return false, false
+		}
+		args := CallArgs(&cc.Call)
+		if len(args) == 2 && isDest(args[1]) {
+			return false, true
+		}
+		return false, false
+	})
+	n := 0
+	for _, b := range fn.Blocks {
+		for _, in := range b.Instrs {
+			call, ok := in.(*ssa.Call)
+			if !ok {
+				continue
+			}
+			bi, ok := call.Call.Value.(*ssa.Builtin)
+			if !ok || bi.Name() != "append" || len(call.Call.Args) < 2 {
+				continue
+			}
+			els := variadicOrdered(call.Call.Args[1])
+			for i, e := range els {
+				if e == nil || !isDest(e) {
+					continue
+				}
+				n++
+				sep := false
+				for _, prev := range els[:i] {
+					if s, isC := ConstString(prev); isC && s == "--" {
+						sep = true
+					}
+				}
+				if sep {
+					c.OK("R8", fmt.Sprintf("ssh-destination#%d:after-separator", n), p.InstrPos(in), "`--` precedes the destination")
+					continue
+				}
+				g, path := Guarded(fn.Blocks[0], in, pass, nil)
+				c.Check(g && nonVacuous(pass), "R8", fmt.Sprintf("ssh-destination#%d:not-an-option", n), p.InstrPos(in), "the bare destination is passed only when the whole user@host string does not start with '-'",
+					"the ssh destination (user@host from the LFS URL, which .lfsconfig may set) can reach the ssh command line without `--` although it starts with '-': `ssh://-oProxyCommand=…@host/` makes ssh execute a program: "+path)
+			}
+		}
+	}
+	c.AtLeast("R8", "places where the ssh destination is put on the command line", n, 2)
+	if pats := globalRegexpPatterns(p, "ssh", "sshOptPrefixRE"); len(pats) == 1 {
+		c.Check(pats[0] == `\A\-+` || pats[0] == `^-+` || pats[0] == `\A-+`, "R8", "ssh-option-prefix-pattern", "ssh/ssh.go", "the option prefix is one or more leading dashes", "the option-prefix pattern is "+pats[0]+", not `\\A\\-+`")
+	} else {
+		c.Missing("R8", "ssh.sshOptPrefixRE", "pattern not found as a constant")
+	}
+}
+
+// globalRegexpPatterns returns the constant pattern(s) a package-level *regexp.Regexp variable is compiled from.
+func globalRegexpPatterns(p *Prog, pkg, name string) []string {
+	sp := p.Pkg(pkg)
+	if sp == nil {
+		return nil
+	}
+	g, ok := sp.Members[name].(*ssa.Global)
+	if !ok {
+		return nil
+	}
+	var out []string
+	if init := sp.Func("init"); init != nil {
+		for _, b := range init.Blocks {
+			for _, in := range b.Instrs {
+				if st, ok := in.(*ssa.Store); ok && st.Addr == ssa.Value(g) {
+					if cc, _, isRes := CallResult(st.Val); isRes && strings.HasPrefix(CalleeName(cc.Common()), "regexp.") {
+						if s, ok := ConstString(cc.Call.Args[0]); ok {
+							out = append(out, s)
+						}
+					}
+				}
 			}
 		}
 	}
